@@ -617,8 +617,8 @@ func (f *frame) frameCheck(ct *Contract, r retRec, ord int) {
 	n0 := c.nalloc(f.entry)
 	short := shortFn(f.fn)
 	for _, k := range keys {
-		if k == allocKey || whole[k] {
-			continue
+		if k == allocKey || whole[k] || strings.HasPrefix(k, "G iter ") {
+			continue // (the ghost bookkeeping of a map iteration is local to the function)
 		}
 		srt := c.eng.heapSorts[k]
 		if !strings.HasPrefix(srt, "(Array ") {
